@@ -79,6 +79,20 @@ def check(ctx):
             b += bytes([rnd.choice([0, 3, 48, 221, rnd.randrange(256)]), l]) + bytes(rnd.getrandbits(8) for _ in range(l))
         lb += ["it " + hexs(b), "it " + hexs(b[:-1]), "it " + hexs(b + b"\xdd")]
     fw.run_suite(ctx, exe, "S-it/long", lb, "tag iteration over long buffers")
+    # adjacent pairs: every (number, number) pair of neighbouring elements, and every number behind a neighbour of
+    # length 0 / 1 / 254 / 255 (an element is reported whatever stands in front of it)
+    ap = []
+    for a in range(256):
+        for b in range(256):
+            ap.append("it " + bytes([7, 1, 0x55, a, 1, 0xaa, b, 2, 1, 2, 3, 1, 6]).hex())
+    for b in range(256):
+        for L in (0, 1, 254, 255):
+            for first in (False, True):
+                pre = b"" if first else bytes([0, 2, 0x41, 0x42])
+                if L == 0 and not first:
+                    pre = b""           # an empty element may only lead
+                ap.append("it " + (pre + bytes([45, L]) + bytes(rnd.getrandbits(8) for _ in range(L)) + bytes([b, 5, 1, 2, 3, 4, 5, 3, 1, 6])).hex())
+    fw.run_suite(ctx, exe, "S-it/adjacent-pairs", ap, "tag iteration over every pair of neighbouring element numbers")
     ci = fw.corpus_inputs(ctx, random.Random(ctx.seed + 77))
     its = set()
     for rt, b in ci:
